@@ -253,12 +253,25 @@ func (w *sworld) atQuiescence() {
 		for _, n := range running {
 			o := obs[n]
 			wantSvc := map[string]map[string]bool{}
+			if len(o.backendProblems) > 0 && (env.On("C05") || env.On("C09")) {
+				prop := "C05"
+				if !env.On("C05") {
+					prop = "C09"
+				}
+				w.violate(prop, "generated-configuration-problem", "", fmt.Sprintf("node %s (%s back end): %s", n, w.k.backend, strings.Join(o.backendProblems, "; ")))
+			}
+			if w.k.backend == "frr" || w.k.backend == "frrk8s" {
+				w.stat("probe.real-" + w.k.backend + "-backend-configuration-interpreted")
+			}
 			for pi := range st.Peers {
 				p := &st.Peers[pi]
 				want, svcs := st.Routes(n, p)
 				var wl []string
 				for r := range want {
 					wl = append(wl, r.String())
+				}
+				if w.k.backend == "frr" || w.k.backend == "frrk8s" {
+					wl = mergeByPrefix(want)
 				}
 				sort.Strings(wl)
 				got, has := o.bgpRoutes[p.Name]
@@ -352,6 +365,38 @@ func (w *sworld) atQuiescence() {
 }
 
 func (w *sworld) c09sig(st *specspk.State) string { return "" }
+
+// mergeByPrefix: in FRR semantics the communities several advertisements request for one prefix
+// towards one peer are one attribute set.
+func mergeByPrefix(want map[specspk.Route]bool) []string {
+	type acc struct {
+		lp    uint32
+		comms map[string]bool
+	}
+	m := map[string]*acc{}
+	for r := range want {
+		a := m[r.Prefix]
+		if a == nil {
+			a = &acc{lp: r.LocalPref, comms: map[string]bool{}}
+			m[r.Prefix] = a
+		}
+		if r.Communities != "" {
+			for _, c := range strings.Split(r.Communities, ",") {
+				a.comms[c] = true
+			}
+		}
+	}
+	var out []string
+	for p, a := range m {
+		var cs []string
+		for c := range a.comms {
+			cs = append(cs, c)
+		}
+		sort.Strings(cs)
+		out = append(out, specspk.Route{Prefix: p, LocalPref: a.lp, Communities: strings.Join(cs, ",")}.String())
+	}
+	return out
+}
 
 // forkCheck is C18: k fresh ConfigReconcilers over the same API snapshot, each with its own List
 // permutations and map iteration orders, must either all hand the same configuration
@@ -538,6 +583,10 @@ func kspkRun(env *runner.Env) *runner.Result {
 	k.ignoreExclude = w.ch.Bool(1, 5, "knob ignoreExclude")
 	k.bgpType = []string{"frr", "native"}[w.pick(2, "knob bgpType")]
 	k.bgpFocus = w.ch.Bool(2, 5, "knob bgpFocus")
+	k.backend = "rec"
+	if k.bgpType != "native" {
+		k.backend = []string{"rec", "frr", "frrk8s"}[w.pick(3, "knob backend")]
+	}
 	k.nativeV6 = w.ch.Bool(1, 5, "knob nativeV6")
 	faults := vm["faults"] != "off" && w.ch.Bool(1, 2, "knob faults")
 	if faults {
@@ -545,6 +594,7 @@ func kspkRun(env *runner.Env) *runner.Result {
 		k.fSuspect = w.ch.Bool(1, 2, "knob fSuspect")
 		k.fResync = w.ch.Bool(1, 2, "knob fResync")
 		k.fListErr = w.ch.Bool(1, 3, "knob fListErr")
+		k.fSetFail = w.ch.Bool(1, 3, "knob fSetFail")
 		k.crashBudget = 1 + w.pick(3, "knob crashBudget")
 	}
 	k.avoidKnown = vm["known"] != "only"
